@@ -361,7 +361,9 @@ fn systematic_cmd(l: &mut Local, rng: &mut Rng, dir: &str, idx: u64) {
 }
 
 fn encode_cmd(l: &mut Local, rng: &mut Rng, dir: &str, idx: u64) {
-    let (r, n) = *rng.pick(&[(3usize, 6usize), (4, 12), (5, 15), (15, 35), (35, 70), (7, 63), (2, 9), (6, 18), (12, 36)]);
+    // every 100th case a code with more than 2^16 message bits (index widths; a 1 MB alist and 70 kB words)
+    let wide = idx % 100 == 57 && !cfg!(miri);
+    let (r, n) = if wide { (3usize, 65_540 + 3 * rng.below(700)) } else { *rng.pick(&[(3usize, 6usize), (4, 12), (5, 15), (15, 35), (35, 70), (7, 63), (2, 9), (6, 18), (12, 36)]) };
     let m = ra_code(rng, r, n);
     let h = m.to_sparse();
     let k = n - r;
@@ -382,7 +384,7 @@ fn encode_cmd(l: &mut Local, rng: &mut Rng, dir: &str, idx: u64) {
     };
     let ps = pattern.as_ref().map(|p| p.iter().map(|&b| if b { "1" } else { "0" }).collect::<Vec<_>>().join(","));
     // mostly a handful of words; every 8th case a long input (tens of kilobytes, several I/O buffers)
-    let words = if idx % 8 == 3 { rng.range(600, 2500) } else { rng.range(0, 5) };
+    let words = if wide { rng.range(1, 3) } else if idx % 8 == 3 { rng.range(600, 2500) } else { rng.range(0, 5) };
     let partial = rng.range(0, k - 1);
     let input: Vec<u8> = (0..words * k + partial).map(|_| rng.coin() as u8).collect();
     // the input is a regular file, or (every 5th case) a named pipe that the harness feeds in uneven chunks:
